@@ -11,7 +11,7 @@ from ..model import AnalysisError, FunctionInfo, bind_args
 from ..quant import Normaliser, show, top_conjuncts, top_disjuncts
 from ..roles import roles_of
 from ..terms import call_name, canon, const_num, dotted, guard_of, norm_stmt
-from .common import attr_stores, iter_stores, reaching_assignments, self_attr_of, store_base
+from .common import attr_stores, iter_stores, reaching_assignments, self_attr_of, store_base, pos
 
 EXPLANATION = (
     "R1 guard checklist: the raise conditions of the validator (every `if c: raise ValueError` reachable only through the complements of "
@@ -248,7 +248,7 @@ def check(ctx):
     cfg = cfg_of(val)
     order_nodes = [n for n, e, f, ds in conds if all(any(a_ in ds for a_ in pair) for pair in ordering.values())]
     if order_nodes:
-        last_order = max(order_nodes, key=lambda n: n.lineno)
+        last_order = max(order_nodes, key=pos)
         on = cfg.head_of(last_order)
         bad = []
         for t, v, s, k in iter_stores(val.node):
